@@ -47,7 +47,21 @@ import (
 //   processing although the pipeline rejected, limiter bypassed / its result ignored, entry
 //   wrapping another handler [4]; resend loop not started (also in helper form) [5]; client table
 //   entry deleted unconditionally (also in helper form) [6].
-//   Honest exit 2 (undecided) instead of a verdict: publish called from a function literal, a
+//   Second iteration (r5..r8 and variants5/6.json), also silent: wrapper closure → struct type with a
+//   process method returned as a method value; withLock(func(){..}) / locked(func(){..}) helpers around the
+//   body of puback / publish / doResend / removeClient (each literal handed to a helper that calls it is
+//   interpreted on its own, starting with the lock state the helper establishes and the rule's events that
+//   hold at the call); embedded mutex → named field; processX functions → *Client methods used as method
+//   expressions, the publish entry itself a method expression; publish / doResend / writePacket /
+//   getClient / checkPublishLimit as plain functions taking the object first; a publication / delivery /
+//   pendingEntry / ack struct carrying QoS, ids or the packet between functions (fields of short-lived
+//   struct values are followed to the composite literal or the later assignment); predicate helpers
+//   (isGone(id), needsAck); map type aliases. Their mutants (processor running fn although rejected, never
+//   calling fn, helper not locking, literal deleting another id, struct carrying another id / level,
+//   wrong method expression wrapped, predicate testing presence only) are reported.
+//   Honest exit 2 (undecided) instead of a verdict: the acknowledged level looked up in a table, the
+//   resend loop split into a search loop and a send on another reading of the queue, a wrapper storing
+//   something else than its parameter in the field it calls, publish called from a function literal, a
 //   helper on the way called by go/defer/nested in an expression, the fan-out ranging over
 //   something else than the subscriber map (e.g. sorted keys), several callers of the
 //   per-subscriber helper, a role that two functions fit and no name decides.
